@@ -67,8 +67,8 @@ func (v *SimVault) beforeWrite(label string) (bool, error) {
 	if fail {
 		w.Log(Event{Gen: v.gen, Kind: EvFault, Note: "write-error", Op: label})
 		w.fault("write-error")
-		if w.onFailWrite != nil {
-			w.onFailWrite()
+		if failStopHook != nil {
+			failStopHook(w)
 		}
 		return false, fmt.Errorf("sim: injected storage write error")
 	}
